@@ -384,47 +384,70 @@ func optInt(v int) string {
 
 func (sc *Scenario) soilCSV() string {
 	s := &sc.Soil
-	var b strings.Builder
 	hasBD := false
 	for _, h := range s.Horizons {
 		if h.BD > 0 {
 			hasBD = true
 		}
 	}
+	names := []string{"SID", "C_org", "Texture", "LayerDepth", "BulkDensityClass"}
 	if hasBD {
-		b.WriteString("SID,C_org,Texture,LayerDepth,BulkDensityClass,BulkDensity,Stone,C/N,C/S,RootDepth,NumberHorizon,FieldCapacity,WiltingPoint,PoreVolume,Sand,Silt,Clay,DrainageDepth,Drainage%,GroundWaterLevel\n")
-	} else {
-		b.WriteString("SID,C_org,Texture,LayerDepth,BulkDensityClass,Stone,C/N,C/S,RootDepth,NumberHorizon,FieldCapacity,WiltingPoint,PoreVolume,Sand,Silt,Clay,DrainageDepth,Drainage%,GroundWaterLevel\n")
+		names = append(names, "BulkDensity")
 	}
-	// a decoy soil before
-	if hasBD {
-		b.WriteString("000,1.00,SL3,03,3,,00,10,00,03,01,24,10,40,73,18,09,20,00,99\n")
-	} else {
-		b.WriteString("000,1.00,SL3,03,3,00,10,00,03,01,24,10,40,73,18,09,20,00,99\n")
-	}
+	names = append(names, "Stone", "C/N", "C/S", "RootDepth", "NumberHorizon", "FieldCapacity", "WiltingPoint", "PoreVolume", "Sand", "Silt", "Clay", "DrainageDepth", "Drainage%", "GroundWaterLevel")
+	// rows as name -> cell
+	var rows []map[string]string
+	decoy := map[string]string{"SID": "000", "C_org": "1.00", "Texture": "SL3", "LayerDepth": "03", "BulkDensityClass": "3", "BulkDensity": "", "Stone": "00", "C/N": "10", "C/S": "00",
+		"RootDepth": "03", "NumberHorizon": "01", "FieldCapacity": "24", "WiltingPoint": "10", "PoreVolume": "40", "Sand": "73", "Silt": "18", "Clay": "09", "DrainageDepth": "20", "Drainage%": "00", "GroundWaterLevel": "99"}
+	rows = append(rows, decoy) // a decoy soil before
 	for i, h := range s.Horizons {
-		cols := []string{s.ID, strconv.FormatFloat(h.Corg, 'f', 2, 64), strings.TrimSpace(h.Texture), fmt.Sprintf("%02d", h.LowerDM), strconv.Itoa(h.LD)}
-		if hasBD {
-			if h.BD > 0 {
-				cols = append(cols, strconv.FormatFloat(h.BD, 'f', 2, 64))
-			} else {
-				cols = append(cols, "")
+		r := map[string]string{"SID": s.ID, "C_org": strconv.FormatFloat(h.Corg, 'f', 2, 64), "Texture": strings.TrimSpace(h.Texture), "LayerDepth": fmt.Sprintf("%02d", h.LowerDM),
+			"BulkDensityClass": strconv.Itoa(h.LD), "BulkDensity": "", "Stone": fmt.Sprintf("%02d", h.Stone), "C/N": strconv.Itoa(h.CN), "C/S": "00", "RootDepth": "", "NumberHorizon": "",
+			"FieldCapacity": optInt(h.FC), "WiltingPoint": optInt(h.WP), "PoreVolume": optInt(h.PS), "Sand": strconv.Itoa(h.Sand), "Silt": strconv.Itoa(h.Silt), "Clay": strconv.Itoa(h.Clay),
+			"DrainageDepth": fmt.Sprintf("%02d", s.DrainDep), "Drainage%": fmtG(s.DrainFrac), "GroundWaterLevel": ""}
+		if h.BD > 0 {
+			r["BulkDensity"] = strconv.FormatFloat(h.BD, 'f', 2, 64)
+		}
+		if i == 0 {
+			r["RootDepth"], r["NumberHorizon"], r["GroundWaterLevel"] = fmt.Sprintf("%02d", s.RootDepth), fmt.Sprintf("%02d", len(s.Horizons)), fmt.Sprintf("%02d", s.GW)
+		}
+		rows = append(rows, r)
+	}
+	// the file is header-driven: a third of the files have their columns in another order and / or one or two further
+	// columns the model does not know (a profile name, a remark)
+	if rs := NewRng(mix(mix(sc.Seed, uint64(sc.Index)), 9494)); rs.Bool(0.33) {
+		if rs.Bool(0.7) {
+			for k := len(names) - 1; k > 0; k-- {
+				o := rs.Intn(k + 1)
+				names[k], names[o] = names[o], names[k]
 			}
 		}
-		cols = append(cols, fmt.Sprintf("%02d", h.Stone), strconv.Itoa(h.CN), "00")
-		if i == 0 {
-			cols = append(cols, fmt.Sprintf("%02d", s.RootDepth), fmt.Sprintf("%02d", len(s.Horizons)))
-		} else {
-			cols = append(cols, "", "")
+		for k, n := 0, rs.Range(0, 2); k < n; k++ {
+			extra := pickS(rs, []string{"Profile", "Remark", "Horizon", "pH"})
+			dup := false
+			for _, nm := range names {
+				dup = dup || nm == extra
+			}
+			if dup {
+				continue
+			}
+			at := rs.Intn(len(names) + 1)
+			names = append(names, "")
+			copy(names[at+1:], names[at:])
+			names[at] = extra
+			for _, r := range rows {
+				r[extra] = pickS(rs, []string{"Ap", "77", "x", "6.5"})
+			}
 		}
-		cols = append(cols, optInt(h.FC), optInt(h.WP), optInt(h.PS), strconv.Itoa(h.Sand), strconv.Itoa(h.Silt), strconv.Itoa(h.Clay))
-		cols = append(cols, fmt.Sprintf("%02d", s.DrainDep), fmtG(s.DrainFrac))
-		if i == 0 {
-			cols = append(cols, fmt.Sprintf("%02d", s.GW))
-		} else {
-			cols = append(cols, "")
+	}
+	var b strings.Builder
+	b.WriteString(strings.Join(names, ",") + "\n")
+	for _, r := range rows {
+		var cells []string
+		for _, nm := range names {
+			cells = append(cells, r[nm])
 		}
-		b.WriteString(strings.Join(cols, ",") + "\n")
+		b.WriteString(strings.Join(cells, ",") + "\n")
 	}
 	return b.String()
 }
